@@ -3,5 +3,5 @@ CONSTANTS
   FixR = FALSE
   Q = 3
   Proto = "and_dlog_com_eq"
-INVARIANTS Complete ResponseBound StatementBound SpecialSound
+INVARIANTS Complete ResponseBound StatementBound EveryRowChecked SpecialSound
 CHECK_DEADLOCK FALSE
